@@ -21,7 +21,7 @@ type c07dims struct {
 }
 
 func (d c07dims) scenario() *DialScenario {
-	hosts := []string{"verif.example", "localhost"}
+	hosts := []string{"verif.example", "localhost", "localhost.mail-relay.example", "LOCALHOST"}
 	sc := &DialScenario{Host: hosts[d.host], Policy: d.policy, AuthType: allAuthTypes[d.auth], User: "verif-user", Pass: "S3cr3t-Passw0rd!", Script: map[int]SrvAction{}}
 	caps := []string{"8BITMIME", "ENHANCEDSTATUSCODES"}
 	if d.adv == 1 {
@@ -114,7 +114,7 @@ func init() {
 			n := c.N(800, 40000)
 			for i := 0; i < n; i++ {
 				r := c.Rng
-				d1 := c07dims{policy: r.Intn(3), auth: r.Intn(len(allAuthTypes)), host: r.Intn(2), adv: 1, authList: r.Intn(len(authLists))}
+				d1 := c07dims{policy: r.Intn(3), auth: r.Intn(len(allAuthTypes)), host: r.Intn(4), adv: 1, authList: r.Intn(len(authLists))}
 				if r.Chance(50) {
 					d1.auth = 1 // auto-discovery
 				}
@@ -165,12 +165,12 @@ func init() {
 		}})
 
 	register(Suite{Name: "c07-policy", Property: "C07",
-		Rule: "the finite table TLS policy {mandatory, opportunistic, none} x 13 auth types x host {other, localhost} x STARTTLS advertised or not x STARTTLS reply {220, 4yz, 5yz, garbage} x handshake {ok, wrong-name certificate, untrusted certificate, garbage} x 5 advertised AUTH lists, with real TLS handshakes in process; byte tap of everything written before TLS; event traces compared with the Lean dial model; quick tier samples the table, thorough enumerates it; non-trivial = TLS or AUTH attempted",
+		Rule: "the finite table TLS policy {mandatory, opportunistic, none} x 13 auth types x host {other, localhost, a remote name that begins with \"localhost.\", LOCALHOST} x STARTTLS advertised or not x STARTTLS reply {220, 4yz, 5yz, garbage} x handshake {ok, wrong-name certificate, untrusted certificate, garbage} x 5 advertised AUTH lists, with real TLS handshakes in process; byte tap of everything written before TLS; event traces compared with the Lean dial model; quick tier samples the table, thorough enumerates it; non-trivial = TLS or AUTH attempted",
 		Run: func(c *Ctx) {
 			var all []c07dims
 			for p := 0; p < 3; p++ {
 				for a := range allAuthTypes {
-					for h := 0; h < 2; h++ {
+					for h := 0; h < 4; h++ {
 						for adv := 0; adv < 2; adv++ {
 							for st := 0; st < 4; st++ {
 								for hs := 0; hs < 4; hs++ {
@@ -213,7 +213,7 @@ func init() {
 			n := c.N(800, 30000)
 			for i := 0; i < n; i++ {
 				r := c.Rng
-				d := c07dims{policy: r.Intn(3), auth: r.Intn(len(allAuthTypes)), host: r.Intn(2), adv: r.Intn(2), authList: r.Intn(len(authLists))}
+				d := c07dims{policy: r.Intn(3), auth: r.Intn(len(allAuthTypes)), host: r.Intn(4), adv: r.Intn(2), authList: r.Intn(len(authLists))}
 				sc := d.scenario()
 				clean := RunDial(sc)
 				if clean.Client != nil && clean.Err == nil {
